@@ -353,6 +353,14 @@ func (cs *clientStream) SendMsg(m interface{}) error {
 	verifPoint("http.send.write")
 	cs.wErr = writeProtoMessage(cs.w, cs.codec, m, false)
 	verifPoint("http.send.ret")
+	if cs.wErr != nil {
+		if done, _ := cs.readErrorIfDone(); done {
+			// the call ended while the message was being written (the
+			// request pipe is closed on completion): same as a send that
+			// comes after the end
+			return io.EOF
+		}
+	}
 	return cs.wErr
 }
 
